@@ -15,19 +15,20 @@ Definition kind_ok (s : state) : bool :=
 Definition QI {A} : res A -> greq -> state -> Prop := fun _ g s => g = req_abs s /\ kind_ok s = true.
 
 Definition kpre (k : kont) (s : state) : bool :=       (* a fetch reply is handled after its request Deferred fired *)
-  match k with KFetchResp _ _ => negb (req_pending s) | _ => true end.
+  match k with KFetchResp _ _ => match s_req s with Some (_, true) => true | _ => false end | _ => true end.
 
-Ltac rw_eqs := repeat match goal with H : ?x = _ |- context [?x] => rewrite H end.
-Ltac case_state :=
-  repeat match goal with
-  | H : context [match s_req ?s with _ => _ end] |- _ => destruct (s_req s) as [[? []]|] eqn:?
+Ltac rw_eqs := repeat match goal with H : ?x = _ |- context [?x] => progress (rewrite H) end.
+(* split on ONE state field that a match in the goal (else in a hypothesis) scrutinises *)
+Ltac case1 :=
+  match goal with
   | |- context [match s_req ?s with _ => _ end] => destruct (s_req s) as [[? []]|] eqn:?
-  | H : context [match s_rcall ?s with _ => _ end] |- _ => destruct (s_rcall s) eqn:?
   | |- context [match s_rcall ?s with _ => _ end] => destruct (s_rcall s) eqn:?
-  | H : context [match s_creq ?s with _ => _ end] |- _ => destruct (s_creq s) as [[[? ?] ?]|] eqn:?
   | |- context [match s_creq ?s with _ => _ end] => destruct (s_creq s) as [[[? ?] ?]|] eqn:?
-  | H : context [match s_mblock ?s with _ => _ end] |- _ => destruct (s_mblock s) as [[[? ?]|]|] eqn:?
   | |- context [match s_mblock ?s with _ => _ end] => destruct (s_mblock s) as [[[? ?]|]|] eqn:?
+  | H : context [match s_req ?s with _ => _ end] |- _ => destruct (s_req s) as [[? []]|] eqn:?
+  | H : context [match s_mblock ?s with _ => _ end] |- _ => destruct (s_mblock s) as [[[? ?]|]|] eqn:?
+  | H : context [match s_rcall ?s with _ => _ end] |- _ => destruct (s_rcall s) eqn:?
+  | H : context [match s_creq ?s with _ => _ end] |- _ => destruct (s_creq s) as [[[? ?] ?]|] eqn:?
   end.
 Ltac rw_hyps :=
   repeat match goal with
@@ -48,10 +49,20 @@ Ltac bool_hyps :=
   | H : _ || _ = false |- _ => apply orb_false_elim in H; destruct H
   end.
 Ltac bcomp := cbn [negb andb orb implb Z.eqb Pos.eqb R_COMMIT R_FETCH R_OFFREQ R_OFFFETCH q_rk q_tm q_co q_lc] in *.
+Ltac qfin := psimpl; bcomp; bool_hyps; rw_eqs; bcomp; first [ reflexivity | assumption | congruence ].
+Ltac unf :=
+  repeat match goal with
+  | H : kind_ok _ = _ |- _ => unfold kind_ok, parked in H
+  | H : kpre _ _ = _ |- _ => unfold kpre, req_pending in H
+  | H : req_pending _ = _ |- _ => unfold req_pending in H
+  | H : parked _ = _ |- _ => unfold parked in H
+  | H : QI _ _ _ |- _ => unfold QI in H
+  end;
+  unfold kpre; unfold QI, req_abs, rcall_active, req_pending, kind_ok, parked.
 Ltac qsolve :=
-  unfold QI, req_abs, rcall_active, req_pending, kind_ok, kpre, parked in *; psimpl; rw_hyps; rw_eqs; cbn beta iota in *;
-  repeat split; try reflexivity; try assumption;
-  case_state; psimpl; bcomp; bool_hyps; rw_eqs; bcomp; try congruence; try reflexivity.
+  unfold QI; repeat split; unf; psimpl; rw_hyps; rw_eqs; cbn beta iota in *;
+  try reflexivity; try assumption; try (f_equal; try reflexivity);
+  repeat (first [ solve [qfin] | case1 ]).
 
 Ltac kind_fact :=
   try match goal with
